@@ -403,7 +403,7 @@ fn cmd_code(c: Cmd) -> u64 {
     }
 }
 
-fn random_cmd(st: &St, rng: &mut Rng, progress: f64) -> Option<Cmd> {
+pub fn random_cmd(st: &St, rng: &mut Rng, progress: f64) -> Option<Cmd> {
     for _ in 0..40 {
         let w = rng.below(100);
         let ntx = st.txs.len().max(1) as u64;
@@ -466,7 +466,7 @@ fn random_cmd(st: &St, rng: &mut Rng, progress: f64) -> Option<Cmd> {
     None
 }
 
-fn all_perms(n: usize) -> Vec<Vec<usize>> {
+pub fn all_perms(n: usize) -> Vec<Vec<usize>> {
     fn rec(cur: &mut Vec<usize>, used: &mut Vec<bool>, n: usize, out: &mut Vec<Vec<usize>>) {
         if cur.len() == n {
             out.push(cur.clone());
